@@ -56,11 +56,11 @@ def mk(pol):
     if k == "Disallow":
         return Disallow
     if k == "ReadOnly":
-        return ReadOnly
+        return ReadOnly if len(pol) == 1 else ReadOnly(val(pol[1]))
     if k == "Constant":
         return Constant(val(pol[1]))
     if k == "Event":
-        return Event()
+        return Event() if len(pol) == 1 else Event({"VInt": Int, "VStr": Str, "VCInt": CInt}[pol[1]])
     if k == "Typed":
         return {"VInt": Int, "VStr": Str, "VCInt": CInt}[pol[1]](val(pol[2]))
     raise ValueError(pol)
@@ -84,10 +84,13 @@ def create(classes, cds):
 MISSING = object()
 
 
-def execute(obj, ops):
+def execute(obj, ops, other=None):
+    """`other`: the second instance of the same class, used by the operations flagged "B"."""
+    first = obj
     hist = []
     for op in ops:
         k, n = op[0], op[1]
+        obj = other if op[-1] == "B" else first
         try:
             if k == "Get":
                 out = ["Val", atom(getattr(obj, n))]
@@ -113,7 +116,8 @@ def execute(obj, ops):
 
 def run_case(case):
     """Classes except the last `nlate` ones; the early operations (flag "E") on a fresh instance of
-    class `precls`; the remaining classes; the other operations on a fresh instance of class `cls`."""
+    class `precls`; the remaining classes; the other operations on two fresh instances of class `cls`
+    (flag "B" = the second one)."""
     cds = case["classes"]
     nlate = case.get("nlate", 0)
     ops = case["ops"]
@@ -133,7 +137,7 @@ def run_case(case):
     k = case["cls"]
     if k < len(ROOTS):
         raise ValueError("the instance must be of a freshly created class")
-    hist += execute(classes[k](), main)
+    hist += execute(classes[k](), main, classes[k]())
     # type(obj).__mro__ as class indices (CHasTraits / object dropped): compared with the law's C3
     hist[0]["mro"] = [classes.index(c) for c in classes[k].__mro__ if c in classes]
     return hist
